@@ -136,7 +136,12 @@ Fixpoint bloop (fuel : nat) (p : list rune) : option (list rune * list rune * bo
         if memb d [46; 61; 58] then
           match find_close d p'' with
           | Some (inside, rest) =>
-            if d =? 58 then cont ([91; d] ++ inside ++ [d; 93]) rest false
+            if d =? 58 then
+              (* [:^name:], the negated class of package regexp, is no class name: rejected *)
+              match inside with
+              | 94 :: _ => cont [] rest true
+              | _ => cont ([91; d] ++ inside ++ [d; 93]) rest false
+              end
             else
               (* a collating symbol or an equivalence class: a single character stands for itself, anything else is rejected *)
               match inside with
